@@ -34,5 +34,9 @@ def load_contracts():
 
 
 def make_gen(repo=None):
+    import json
     contracts, fields, tags = load_contracts()
-    return VCGen(load_modules(repo), contracts, fields, tags)
+    g = VCGen(load_modules(repo), contracts, fields, tags)
+    lock = os.path.join(os.path.dirname(os.path.dirname(os.path.abspath(__file__))), 'obligations.lock.json')
+    g.locals_lock = json.load(open(lock)).get('__locals__', {}) if os.path.exists(lock) else {}
+    return g
